@@ -605,6 +605,10 @@ theorem runWorkers_adv (fuel : Nat) (m : M) (h : Sound0 m.1) : Adv m.1 (runWorke
               · exact Adv.refl _
             · exact Adv.refl _
 
+/-- The stop command (fix C04-F6): the pending verification request is withdrawn, then `stop`. -/
+theorem stopCmd_adv (s : St) : Adv s (({ s with doVerify := false }).stop false) :=
+  (Adv.frame rfl rfl rfl rfl rfl : Adv s { s with doVerify := false }).trans (stop_adv _ false)
+
 theorem handle_adv (s : St) (p : Parked) (kn : Nat → Bool) (op : Op) (hop : op.isMutate = false) :
     Adv s (handle s p kn op).1.1 := by
   unfold handle
@@ -625,7 +629,10 @@ theorem handle_adv (s : St) (p : Parked) (kn : Nat → Bool) (op : Op) (hop : op
     | exact Adv.frame rfl rfl rfl rfl rfl
     | (next heq => have hm := congrArg Prod.fst heq; simp only at hm; rw [← hm]; exact acceptPeer_adv (s, []) ..)
     | (next heq => exact Adv.of_eq rfl rfl rfl (Or.inl rfl) (Or.inr (Or.inl heq.symm)))
-    | exact (stop_adv s false).trans (Adv.frame rfl rfl rfl rfl rfl)
+    | exact (stopCmd_adv s).trans (Adv.frame rfl rfl rfl rfl rfl)
+    | exact stopCmd_adv s
+    | exact (Adv.of_eq rfl rfl rfl (Or.inl rfl) (Or.inr (Or.inr rfl)) : Adv s { s with persisted := none }).trans
+          (handleVerifyCommand_adv ({ s with persisted := none }, []))
     | (refine ((?_ : Adv s { s with persisted := none }).trans
           (handleVerifyCommand_adv ({ s with persisted := none }, []))).trans ?_
        · exact Adv.of_eq rfl rfl rfl (Or.inl rfl) (Or.inr (Or.inr rfl))
